@@ -186,6 +186,35 @@ class Checker:
                 ctx.fail("result_depends_on_earlier_operations", case, "the tree evaluates to %r on the long-lived database and to %r on a freshly built one" % (obj, fresh))
             ctx.cls("compared_with_fresh_database")
             self.pair_battery(case, leaves)
+        if kind == "scalar" and len(leaves) >= 2:
+            # a power of the first leaf obtained through the documented list-of-tuples form of ObtainQuantity (not
+            # through arithmetic) multiplies and divides like the same power built by arithmetic
+            from barril.units import ObtainQuantity, Scalar
+
+            l0, l1 = leaves[0], leaves[1]
+            for e in (2, -1):
+                qd = ObtainQuantity([(l0[2], e)], [l0[3]])
+                sd = Scalar(qd, 2.0)
+                other = self.ev(l1, "scalar")
+                mt = ("**", ("leaf", 2.0 ** (1.0 / e) if e > 0 else 0.5, l0[2], l0[3]), abs(e)) if e > 0 else None
+                for what, fn in (("q*x", lambda: sd * other), ("x*q", lambda: other * sd), ("x/q", lambda: other / sd)):
+                    ctx.ev()
+                    try:
+                        r = fn()
+                    except Exception as ex:
+                        where = core.tree_frame(ex)
+                        if where is None:
+                            raise
+                        ctx.fail("arithmetic_on_obtained_derived_quantity_raises:%s" % type(ex).__name__, dict(case, obtained=[l0[2], l0[3], e]), "%s with q = Scalar(ObtainQuantity([(%r,%d)],[%r]), 2.0) and x = %r raised %s: %s" % (what, l0[2], e, l0[3], other, type(ex).__name__, str(ex)[:150]))
+                        continue
+                    # magnitude against the model: 2 * slope(u)^e combined with the other leaf
+                    m_q = 2.0 * self.um.slope[l0[2]] ** e
+                    m_x = l1[1] * self.um.slope[l1[2]] if not isinstance(l1[1], (list, tuple)) else l1[1][0] * self.um.slope[l1[2]]
+                    want = m_q * m_x if what != "x/q" else m_x / m_q
+                    gm = mag_of(self.um, r.GetQuantity(), r.GetValue())
+                    if math.isfinite(want) and 1e-250 < abs(want) < 1e250 and not relclose(gm, want, 1e-9):
+                        ctx.fail("magnitude_wrong", dict(case, obtained=[l0[2], l0[3], e]), "%s with an obtained %s^%d quantity: %r = %r in base units, model %r" % (what, l0[2], e, r, gm, want))
+            ctx.cls("obtained_derived_quantity_arithmetic")
         _, md = self.model(t, 0)
         if not md:
             ctx.cls("cancels_to_dimensionless")
